@@ -677,3 +677,49 @@ class Remap:
         pass
 
 
+
+
+def shared_mutable_class_state(source: "Source") -> list:
+    """class-body attributes holding a mutable display ([...], {...}, list()/dict()/set()) that methods mutate in place through
+    `self.<attr>[...] = ...` / `.append` / `.update` without the instance ever rebinding `self.<attr> = ...` in __init__:
+    every instance then shares (and overwrites) one object -- state that leaks between objects and calls."""
+    out = []
+    for m in source.modules.values():
+        for cname, ci in m.classes.items():
+            mutable = {}
+            for st in ci.node.body:
+                tgt = None
+                val = None
+                if isinstance(st, ast.Assign) and len(st.targets) == 1 and isinstance(st.targets[0], ast.Name):
+                    tgt, val = st.targets[0].id, st.value
+                elif isinstance(st, ast.AnnAssign) and isinstance(st.target, ast.Name) and st.value is not None:
+                    tgt, val = st.target.id, st.value
+                if tgt is None:
+                    continue
+                if isinstance(val, (ast.List, ast.Dict, ast.Set)) or (isinstance(val, ast.Call) and dotted(val.func) in ("list", "dict", "set")):
+                    mutable[tgt] = st
+            if not mutable:
+                continue
+            rebound = set()
+            init = ci.methods.get("__init__")
+            if init is not None:
+                rebound = {a for a, _ in attr_stores(init.node) if not False}
+                # only plain rebinding counts (self.x = ...), not self.x[i] = ...
+                rebound = {t.attr for s_ in ast.walk(init.node) if isinstance(s_, ast.Assign) for t in s_.targets
+                           if isinstance(t, ast.Attribute) and isinstance(t.value, ast.Name) and t.value.id == "self"}
+            for mname, f in ci.methods.items():
+                for x in ast.walk(f.node):
+                    hit = None
+                    if isinstance(x, (ast.Assign, ast.AugAssign)):
+                        tg = x.targets if isinstance(x, ast.Assign) else [x.target]
+                        for t in tg:
+                            if isinstance(t, ast.Subscript) and isinstance(t.value, ast.Attribute) and isinstance(t.value.value, ast.Name) \
+                                    and t.value.value.id == "self" and t.value.attr in mutable:
+                                hit = t.value.attr
+                    if isinstance(x, ast.Call) and isinstance(x.func, ast.Attribute) and x.func.attr in ("append", "extend", "update", "insert", "pop", "clear", "add") \
+                            and isinstance(x.func.value, ast.Attribute) and isinstance(x.func.value.value, ast.Name) and x.func.value.value.id == "self" \
+                            and x.func.value.attr in mutable:
+                        hit = x.func.value.attr
+                    if hit and hit not in rebound:
+                        out.append((f, x, cname, hit))
+    return out
